@@ -381,6 +381,7 @@ def execute(ex: Execution, pname: str, backend: str, crash_at: int | None, netwo
         sh.make_yielding(store2, ticks=True)
     loop2 = VLoop()
     loop2.vt = vt
+    third_restart = False
     obs: dict[str, Any] = {}
     # (with a write fault the server's own backoff has to elapse before it writes again, so time may pass there)
     with EngineExec(ex, RunConfig(max_actions=120, allow_time=restart_fault), loop=loop2) as e2:
@@ -401,6 +402,17 @@ def execute(ex: Execution, pname: str, backend: str, crash_at: int | None, netwo
                 await orig_update2(handler)
 
             store2.update = update2  # type: ignore[method-assign]
+            orig_status2 = store2.update_handler_status
+            if backend == "memory":
+                # (the in-memory store's status write does not go through update(): the same single fault can hit it too)
+                async def status2(*a: Any, **kw: Any) -> Any:
+                    if fault["left"] and ex.choose(2, "store_write", ["ok", "fails"]) == 1:
+                        fault["left"] -= 1
+                        fault["hit"] = True
+                        raise OSError("transient store failure")
+                    return await orig_status2(*a, **kw)
+
+                store2.update_handler_status = status2  # type: ignore[method-assign]
         if crashed:
             stack2 = sh.Stack(store2, idle_timeout=10_000.0)
             wf2 = prog["make"]()(timeout=None)
@@ -411,10 +423,32 @@ def execute(ex: Execution, pname: str, backend: str, crash_at: int | None, netwo
                     # the client saw no effect of its event before the crash: it sends it again after the restart
                     e2.add_script([Action(f"resend Resp({key})#{uid}", (lambda key=key, uid=uid: e2.loop.create_task(
                         stack2.service.send_event("h1", Resp(uid=uid, key=key)))))])
-            if prog.get("cancel") and not any(td.get("type") == "cancel_run" for td in ticks):
+            if prog.get("cancel") and not any(td.get("type") == "cancel_run" for td in ticks) and not (restart_fault and ended):
+                # (with the write fault and a log that already ends the run, a later cancel would be a NEW client action on a
+                # handler whose finalization is merely delayed - outside what this dimension is about)
                 # the client's cancel request had no durable effect before the stop: it is sent again
                 e2.add_script([Action("cancel h1 again", lambda: e2.loop.create_task(stack2.service.cancel_handler("h1")))])
             e2.drive()
+            if restart_fault and fault["hit"]:
+                # a handler whose log already ends the run and whose finalizing write hit the one transient failure is left as it
+                # is and finalized by the NEXT start-up pass (that is the server's design): start the server once more, without
+                # faults, and judge what the handler says then.  A wrong terminal status is judged as it stands.
+                h_mid = _handler(loop2, store2)
+                ticks_mid = _persisted_ticks(loop2, store2, "run1")
+                if h_mid is not None and h_mid.status == "running" and any(_is_terminal_tick(td, pname) for td in ticks_mid):
+                    import vmc.engine as _eng
+
+                    store2.update = orig_update2  # type: ignore[method-assign]
+                    store2.update_handler_status = orig_status2  # type: ignore[method-assign]
+                    cur_store["s"] = store2
+                    saved_h = _eng._H
+                    loop2.uninstall()  # (process 2 is over: nothing of it runs any more while process 3 works on the store)
+                    try:
+                        process(False, loop2.vt, sh.CrashControl(None))
+                    finally:
+                        _eng._H = saved_h
+                        loop2.install()
+                    third_restart = True
         h = _handler(loop2, store2)
         status = h.status if h is not None else None
         result = h.result.result if (h is not None and h.result is not None) else None
@@ -437,6 +471,8 @@ def execute(ex: Execution, pname: str, backend: str, crash_at: int | None, netwo
             wk["process_stops"] = 2
         if restart_fault:
             wk["status_write_failed_once_during_restart"] = fault["hit"]
+            if third_restart:
+                wk["judged_after_one_more_restart"] = True
         if idle_flag:
             # root cause of an idle flag on a working run: announced by the run itself (the recorded spurious-idle finding), or
             # left over from before the run was reloaded on demand (a reload must clear it)
